@@ -2,6 +2,7 @@ package main
 
 import (
 	"fmt"
+	"go/constant"
 	"go/token"
 	"go/types"
 	"sort"
@@ -228,18 +229,9 @@ func (e *Enc) convert(fr *Frame, st *State, x *ssa.Convert) *State {
 		if isUnsigned(to) && !isUnsigned(from) {
 			n := e.freeVal(fr, x)
 			e.assume("(=> (>= " + v + " 0) (= " + n + " " + v + "))")
-		} else if b, ok := to.Underlying().(*types.Basic); ok && (b.Kind() == types.Int || b.Kind() == types.Int64 || b.Kind() == types.Uint64 || b.Kind() == types.Uint) {
-			e.setVal(fr, x, v) // widening (M1: 64-bit values treated as mathematical)
 		} else {
-			// narrowing: value preserved only when in range; keep it free otherwise
-			n := e.freeVal(fr, x)
-			if tb, ok := to.Underlying().(*types.Basic); ok {
-				lo, hi := intRange(tb.Kind())
-				if lo != "" {
-					e.assume(fmt.Sprintf("(=> (and (<= %s %s) (<= %s %s)) (= %s %s))", lo, v, v, hi, n, v))
-					e.assume(fmt.Sprintf("(and (<= %s %s) (<= %s %s))", lo, n, n, hi))
-				}
-			}
+			// M1: integers are mathematical; conversions between integer types keep the value
+			e.setVal(fr, x, v)
 		}
 	case fs == "Str" && ts == "Slice": // []byte(s)
 		r := e.alloc(fr, &st, x, "cv")
@@ -309,6 +301,7 @@ func (e *Enc) typeAssert(fr *Frame, x *ssa.TypeAssert) {
 			e.usedTrusted["iface-nonnil "+typeStr(x.X.Type())] = true
 		}
 		fr.tup[x] = []string{vn, okn}
+		e.astRangeAxiom(fr, x, v, vn, okn)
 		return
 	}
 	e.addOb(fr, "SAFE", "typeassert", x.Pos(), e.exprText(x.Pos(), "assert"), ok, false)
@@ -317,6 +310,55 @@ func (e *Enc) typeAssert(fr *Frame, x *ssa.TypeAssert) {
 	if isPointerShaped(x.AssertedType) && e.spec.nonnilIface[typeStr(x.X.Type())] {
 		e.assumeG("(not (= " + n + " 0))")
 		e.usedTrusted["iface-nonnil "+typeStr(x.X.Type())] = true
+	}
+	e.astRangeAxiom(fr, x, v, n, "true")
+}
+
+// astIfaceKey: the interfaces of the hcl AST (hcl.Expression, hclsyntax.Expression, hclsyntax.Node, ...) are
+// views of the same node values; their methods get one symbol per method name.
+func astIfaceKey(t types.Type) string {
+	if n, ok := t.(*types.Named); ok && n.Obj().Pkg() != nil {
+		switch n.Obj().Pkg().Path() {
+		case "github.com/hashicorp/hcl/v2", "github.com/hashicorp/hcl/v2/hclsyntax":
+			if _, isI := t.Underlying().(*types.Interface); isI {
+				return "hclast"
+			}
+		}
+	}
+	return typeKey(t)
+}
+
+// astRangeAxiom: after x.(*hclsyntax.T) succeeded, x.Range() (an uninterpreted function of the interface
+// value) is what T's own Range method returns (its body is inlined from the pinned hcl source).
+func (e *Enc) astRangeAxiom(fr *Frame, x *ssa.TypeAssert, ifaceTerm, ptrTerm, ok string) {
+	if astIfaceKey(x.X.Type()) != "hclast" || fr.curState == nil || e.quant > 0 {
+		return
+	}
+	if _, isPtr := x.AssertedType.Underlying().(*types.Pointer); !isPtr {
+		return
+	}
+	for _, mname := range []string{"Range", "StartRange"} {
+		sel := e.w.prog.MethodSets.MethodSet(x.AssertedType).Lookup(nil, mname)
+		if sel == nil {
+			continue
+		}
+		fn := e.w.prog.MethodValue(sel)
+		if fn == nil || !e.willInline(fn, fr.depth) {
+			continue
+		}
+		uf := "IM_hclast_" + mname + "_0"
+		rt := fn.Signature.Results().At(0).Type()
+		e.d.decl(uf, "(Iface) "+e.d.sortOf(rt))
+		save := e.cur
+		e.cur = "(and " + save + " " + ok + ")"
+		if ok == "true" {
+			e.cur = save
+		}
+		rs, _ := e.inlineFn(fr, fr.curState, fn, []string{ptrTerm}, nil, nil, false)
+		e.cur = save
+		if len(rs) == 1 {
+			e.assumeG("(=> " + ok + " (= (" + uf + " " + ifaceTerm + ") " + rs[0] + "))")
+		}
 	}
 }
 
@@ -382,6 +424,9 @@ func (e *Enc) willInline(callee *ssa.Function, depth int) bool {
 	if e.spec.contractFor(callee) != nil {
 		return false
 	}
+	if e.w.mine[pkgOf(callee)] && e.ifaceContractFor(callee) != nil {
+		return false
+	}
 	if e.pureCalls && len(findLoops(callee)) > 0 {
 		return false
 	}
@@ -427,6 +472,9 @@ func (e *Enc) call(fr *Frame, st *State, c *ssa.Call) *State {
 		return e.invoke(fr, st, c, recv, args)
 	}
 	callee := cc.StaticCallee()
+	if callee != nil {
+		e.siteAsserts(fr, st, c)
+	}
 	if callee == nil {
 		fv := e.val(fr, cc.Value)
 		e.addOb(fr, "SAFE", "nil", c.Pos(), text, "(not (= "+fv+" 0))", false)
@@ -445,8 +493,23 @@ func (e *Enc) call(fr *Frame, st *State, c *ssa.Call) *State {
 		e.addOb(fr, "SAFE", "nilrecv", c.Pos(), text, "(not (= "+args[0]+" 0))", e.allocTerms[args[0]])
 		e.assumeG("(not (= " + args[0] + " 0))")
 	}
+	if e.readerUF(callee) {
+		// reads the heap, writes nothing, returns plain values: a function of arguments and heap version
+		// (the same symbol is used when a contract mentions the call)
+		if ct := e.spec.contractFor(callee); ct != nil {
+			return e.callContract(fr, st, c, callee, ct, args)
+		}
+		e.ufResult(fr, c, e.readerName(callee, st), args, cc.Args)
+		return st
+	}
 	if ct := e.spec.contractFor(callee); ct != nil {
 		return e.callContract(fr, st, c, callee, ct, args)
+	}
+	if e.w.mine[pkgOf(callee)] {
+		// a static call of a method that implements an interface under contract is governed by that contract
+		if ict := e.ifaceContractFor(callee); ict != nil {
+			return e.callContract(fr, st, c, callee, ict, args)
+		}
 	}
 	if e.willInline(callee, fr.depth) {
 		return e.inlineCall(fr, st, c, callee, args, cc)
@@ -466,12 +529,55 @@ func (e *Enc) call(fr *Frame, st *State, c *ssa.Call) *State {
 	}
 	if pure || e.spec.pure[name] {
 		e.ufResult(fr, c, "X_"+san(name), args, cc.Args)
+		e.olderResults(fr, c, st)
 		e.resultFacts(fr, c, callee)
 		return st
 	}
 	st = e.havocCall(fr, st, c, false)
 	e.resultFacts(fr, c, callee)
+	if name == "context.WithValue" && len(args) == 3 {
+		// trusted: the derived context answers val for key and what the parent answers for every other key
+		if res, ok := fr.vals[c]; ok {
+			uf := "IM_" + typeKey(c.Type()) + "_Value_0"
+			e.d.decl(uf, "(Iface Iface) Iface")
+			e.assume(fmt.Sprintf("(= (%s %s %s) %s)", uf, res, args[1], args[2]))
+			q := e.fresh("q_key")
+			e.assume(fmt.Sprintf("(forall ((%s Iface)) (! (=> (not (= %s %s)) (= (%s %s %s) (%s %s %s))) :pattern ((%s %s %s))))", q, q, args[1], uf, res, q, uf, args[0], q, uf, res, q))
+			e.assume("(not (= (itag " + res + ") 0))")
+			e.usedTrusted["context.WithValue: Value(key)=val, other keys as in the parent"] = true
+		}
+	}
+	if name == "fmt.Sprintf" && len(cc.Args) > 0 {
+		if k, ok := cc.Args[0].(*ssa.Const); ok && k.Value != nil {
+			if n := sprintfLiteralLen(constant.StringVal(k.Value)); n > 0 {
+				if t, ok := fr.vals[c]; ok {
+					e.assume(fmt.Sprintf("(>= (strlen %s) %d)", t, n))
+					e.usedTrusted["fmt.Sprintf keeps the literal characters of its format"] = true
+				}
+			}
+		}
+	}
 	return st
+}
+
+// sprintfLiteralLen: bytes of the format that are not part of a verb.
+func sprintfLiteralLen(f string) int {
+	n := 0
+	for i := 0; i < len(f); i++ {
+		if f[i] != '%' {
+			n++
+			continue
+		}
+		i++
+		if i < len(f) && f[i] == '%' {
+			n++
+			continue
+		}
+		for i < len(f) && strings.ContainsRune("+-# 0123456789.*[]", rune(f[i])) {
+			i++
+		}
+	}
+	return n
 }
 
 func pkgOf(f *ssa.Function) *types.Package {
@@ -543,6 +649,22 @@ func (e *Enc) bindResults(fr *Frame, c *ssa.Call) []string {
 	return []string{n}
 }
 
+// olderResults: what a pure call returns existed before the call.
+func (e *Enc) olderResults(fr *Frame, c *ssa.Call, st *State) {
+	ts := e.resultTypes(c)
+	if tp, ok := fr.tup[c]; ok {
+		for i, t := range ts {
+			if i < len(tp) {
+				e.older(t, tp[i], st.nxt, 0)
+			}
+		}
+		return
+	}
+	if t, ok := fr.vals[c]; ok && len(ts) == 1 {
+		e.older(ts[0], t, st.nxt, 0)
+	}
+}
+
 func (e *Enc) ufResult(fr *Frame, c *ssa.Call, fn string, args []string, argVals []ssa.Value) {
 	ts := e.resultTypes(c)
 	var sorts []string
@@ -605,6 +727,7 @@ func (e *Enc) havocCall(fr *Frame, st *State, c *ssa.Call, full bool) *State {
 	} else {
 		ns = e.newState(sCall, st)
 		ns.bound = st.nxt
+		ns.ver = st.ver // the callee writes no object that existed before the call (default frame)
 	}
 	e.n++
 	ns.id = e.n
@@ -633,6 +756,13 @@ func (e *Enc) invoke(fr *Frame, st *State, c *ssa.Call, recv string, args []stri
 	if n, ok := it.(*types.Named); ok && n.Obj().Pkg() != nil && e.w.mine[n.Obj().Pkg()] {
 		mine = true
 	}
+	if nt, ok := it.(*types.Named); ok && mine && e.spec.pureMethod[nt.Obj().Pkg().Name()+"."+nt.Obj().Name()+"."+m.Name()] {
+		all := append([]string{recv}, args...)
+		vals := append([]ssa.Value{cc.Value}, cc.Args...)
+		e.ufResult(fr, c, "IM_"+typeKey(it)+"_"+m.Name(), all, vals)
+		e.usedTrusted["pure-method "+typeKey(it)+"."+m.Name()+" (declared)"] = true
+		return st
+	}
 	if mine && e.w.pureIfaceMethod(it, m) {
 		all := append([]string{recv}, args...)
 		vals := append([]ssa.Value{cc.Value}, cc.Args...)
@@ -655,11 +785,16 @@ func (e *Enc) invoke(fr *Frame, st *State, c *ssa.Call, recv string, args []stri
 				pure = false
 			}
 		}
+		if nt, ok := it.(*types.Named); ok && nt.Obj().Pkg() != nil && e.spec.pureMethod[nt.Obj().Pkg().Name()+"."+nt.Obj().Name()+"."+m.Name()] {
+			pure = true
+			e.usedTrusted["pure-method "+nt.Obj().Pkg().Name()+"."+nt.Obj().Name()+"."+m.Name()] = true
+		}
 		if pure {
 			// methods of external interface values (AST nodes, cty): pure functions of receiver and arguments
 			all := append([]string{recv}, args...)
 			vals := append([]ssa.Value{cc.Value}, cc.Args...)
-			e.ufResult(fr, c, "IM_"+typeKey(it)+"_"+m.Name(), all, vals)
+			e.ufResult(fr, c, "IM_"+astIfaceKey(it)+"_"+m.Name(), all, vals)
+			e.olderResults(fr, c, st)
 			e.invokeFacts(fr, c, it, m.Name(), recv)
 			return st
 		}
@@ -755,6 +890,15 @@ func (e *Enc) inlineFnB(fr *Frame, st *State, callee *ssa.Function, args []strin
 	}
 	js := e.newState(sJoin, nil)
 	js.conds, js.preds = conds, sts
+	sameVer := true
+	for _, p := range sts[1:] {
+		if p.ver != sts[0].ver {
+			sameVer = false
+		}
+	}
+	if sameVer {
+		js.ver = sts[0].ver
+	}
 	nx := e.freshConst(nf.pfx+"nxtR", "Int")
 	for i, p := range sts {
 		e.assume("(=> " + conds[i] + " (= " + nx + " " + p.nxt + "))")
@@ -983,4 +1127,27 @@ func (e *Enc) closureUse(fr *Frame, v ssa.Value, ci *closureInfo) {
 			return
 		}
 	}
+}
+
+// readerUF: an hcl-lang function that only reads (isReader), returns plain values, and would otherwise be
+// opaque (it has loops, or is under contract): modelled as an uninterpreted function of its arguments and
+// the heap version, in code and in contract expressions alike.
+func (e *Enc) readerUF(callee *ssa.Function) bool {
+	if callee == nil || !e.w.mine[pkgOf(callee)] || !e.w.isReader(callee, 0) {
+		return false
+	}
+	res := callee.Signature.Results()
+	if res.Len() == 0 {
+		return false
+	}
+	for i := 0; i < res.Len(); i++ {
+		if !valueLike(res.At(i).Type(), 0) {
+			return false
+		}
+	}
+	return len(findLoops(callee)) > 0 || e.spec.contractFor(callee) != nil
+}
+
+func (e *Enc) readerName(callee *ssa.Function, st *State) string {
+	return fmt.Sprintf("RDv%d_%s", st.ver, san(shortName(callee)))
 }
